@@ -256,9 +256,10 @@ impl GraphEngine {
             return Ok(id);
         }
 
-        // It's a new label.
-        // We update memory first to get the authoritative ID.
-        let returned_id = interner.get_or_create(name);
+        // It's a new label. Its id is only reserved here; the interner learns the name after
+        // the log accepted it, otherwise a failed append would leave an id that later calls
+        // return from memory although no log record and no published snapshot knows it.
+        let returned_id = interner.next_id();
 
         // Durability: Log to WAL (post-facto, but before return)
         // We wrap this in a mini-transaction to ensure replayability.
@@ -275,6 +276,9 @@ impl GraphEngine {
         }
         #[cfg(nervusdb_verif)]
         crate::verif::sched("label.after_wal");
+
+        let interned_id = interner.get_or_create(name);
+        debug_assert_eq!(interned_id, returned_id);
 
         // Update Published Snapshot
         let snapshot = interner.snapshot();
